@@ -37,7 +37,7 @@ PARTIAL BY NATURE — carried by the correspondence run with real children only:
 namespace Verif.Props.C16
 open Verif.Gen.Timing Verif.Model.Shutdown
 
-theorem c16_translated : translatable = true := by decide
+theorem c16_translated : graceTranslatable = true := by decide
 
 /-- "the two one-second grace periods" -/
 theorem c16_grace_periods : graceTermMs = 1000 ∧ graceKillMs = 1000 := by decide
